@@ -58,8 +58,12 @@ def build_demo(tree, demo, cfg, out):
         extra += ["-fsanitize=undefined", "-fno-sanitize-recover=undefined"]
     if "-fsanitize=address" in head:
         extra += ["-fsanitize=address"]
-    if "--wrap=malloc" in head:
-        extra += ["-Wl,--wrap=malloc"]
+    import re
+    wraps = re.findall(r"-Wl,--wrap=[A-Za-z0-9_,=\-]+", head)
+    extra += sorted(set(wraps))
+    for fl in re.findall(r"-D(EDN_ENABLE_[A-Z_]+)", head):
+        if ("-D" + fl) not in FLAGS[cfg]:
+            extra += ["-D" + fl]
     if "-D_GNU_SOURCE" in head:
         extra += ["-D_GNU_SOURCE"]
     r = sh(["gcc", "-std=gnu11", "-O1", "-msse4.2", "-w", "-pthread"] + extra + FLAGS[cfg] + ["-I" + os.path.join(tree, "include"), "-I" + os.path.join(tree, "src"), demo] + srcs +
